@@ -221,10 +221,67 @@ class Extractor(object):
         if site is None:
             site = dict(func=fn.name, helper=ctx["helper"], method=method, via=via, line=node.lineno,
                         end_line=getattr(node, "end_lineno", node.lineno), col=node.col_offset,
-                        contexts=[])
+                        contexts=[], clears=self._clears(fn.node, node) if method == "close" else "-")
             self.sites[key] = site
         site["contexts"].append((ctx["region"] is not None, bool(ctx["guard"] and ctx["region"] is not None)))
         self._emit(fn, ("dev", key), ctx)
+
+    # ---- does `self.device = None` follow the driver's close() - also when close() raised IOError? ------------
+    @staticmethod
+    def _has_clear(stmts):
+        for st in stmts:
+            for n in ast.walk(st):
+                if (isinstance(n, ast.Assign) and any(_is_self_attr(t, "device") for t in n.targets)
+                        and isinstance(n.value, ast.Constant) and n.value.value is None):
+                    return True
+        return False
+
+    @staticmethod
+    def _catches_ioerror(handler):
+        t = handler.type
+        if t is None:
+            return True
+        names = [e for e in (t.elts if isinstance(t, ast.Tuple) else [t])]
+        ok = {"IOError", "OSError", "EnvironmentError", "Exception", "BaseException"}
+        return any((isinstance(e, ast.Name) and e.id in ok) or (isinstance(e, ast.Attribute) and e.attr in ok)
+                   for e in names)
+
+    def _clears(self, fnode, call):
+        """"always": the assignment is executed whether the driver call returns or raises IOError;
+        "onsuccess": only when it returns; "never": not at all (in the enclosing method)."""
+        def contains(st):
+            return any(n is call for n in ast.walk(st))
+
+        def walk(stmts):
+            """-> (found, clear_on_success, clear_on_failure, propagates) for the block holding the call"""
+            for i, st in enumerate(stmts):
+                if not contains(st):
+                    continue
+                rest = stmts[i + 1:]
+                if isinstance(st, ast.Try) and any(contains(x) for x in st.body):
+                    f, cs, cf, prop = walk(st.body)
+                    cs = cs or self._has_clear(st.orelse) or self._has_clear(st.finalbody)
+                    cf = cf or self._has_clear(st.finalbody)
+                    if prop:
+                        hs = [h for h in st.handlers if self._catches_ioerror(h)]
+                        if hs:
+                            cf = cf or all(self._has_clear(h.body) for h in hs)
+                            prop = any(isinstance(x, ast.Raise) for h in hs for x in ast.walk(h))
+                    after = self._has_clear(rest)
+                    return True, cs or after, cf or (after and not prop), prop
+                blocks = [getattr(st, a) for a in ("body", "orelse", "finalbody") if isinstance(getattr(st, a, None), list)]
+                blocks += [h.body for h in getattr(st, "handlers", [])]
+                for b in blocks:
+                    if any(contains(x) for x in b):
+                        f, cs, cf, prop = walk(b)
+                        after = self._has_clear(rest)
+                        return True, cs or after, cf or (after and not prop), prop
+                # the call is in this very statement: an exception raised by it propagates out of the block
+                after = self._has_clear(rest)
+                return True, after, False, True
+            return False, False, False, True
+        f, cs, cf, prop = walk(fnode.body)
+        return "always" if (cs and cf) else ("onsuccess" if cs else "never")
 
     def _number_sites(self):
         groups = {}
@@ -325,7 +382,7 @@ class Extractor(object):
 
     def table(self):
         return dict(source=self.path, sha1=self.sha1,
-                    sites=[{k: s[k] for k in ("id", "func", "helper", "method", "via", "line", "locked", "guarded")}
+                    sites=[{k: s[k] for k in ("id", "func", "helper", "method", "via", "line", "locked", "guarded", "clears")}
                            for s in self.site_list()],
                     ops=self.ops)
 
@@ -344,6 +401,8 @@ def tla_defs(ex, prefix="d_"):
     lines.append("%sOps == %s" % (prefix, _set(_q(o) for o in sorted(ex.ops))))
     m = " @@ ".join("%s :> %s" % (_q(s["id"]), _q(s["method"])) for s in ex.site_list())
     lines.append("%sSiteM == %s" % (prefix, m))
+    c = " @@ ".join("%s :> %s" % (_q(s["id"]), _q(s["clears"])) for s in ex.site_list())
+    lines.append("%sCloseClears == %s" % (prefix, c))
     segs = []
     for o in sorted(ex.ops):
         ss = ", ".join("[locked |-> %s, guarded |-> %s, calls |-> %s]" % (
